@@ -12,6 +12,11 @@ CLAIMS = {
  "C10": ("proof", "forwardMessage: budget 0 => no own send and exactly one 'expired' notice to the source unless the packet is itself a notice; budget h>0 => exactly one own send whose TTL byte is h-1 (exact byte arithmetic), to the next hop's connection; handleMessageData forwards only non-local packets regardless of TTL. Lemma hopbound (induction over the contract's fwdcount/fwdttl): at most h forwards in total for any routing tables. Not decided: traceroute/ping interpretation (ping.go), that routes are least-cost (C01)."),
  "C11": ("proof", "runProtocol: the only insertion into the connection table requires a non-empty ID different from the local one, not already connected (checked and inserted in one critical section), on the allow-list when one is set, with the per-node or default cost; after insertion every return path has called removeConnection for that ID (ghost flag), established implies inserted. Not decided: post-establishment rejections' wire effects, duplicate-node epoch handshake (handleRoutingUpdate), timing."),
  "C12": ("proof", "handleMessageData: the decision is decide(rules, md) = result of the first rule not returning Continue (recursive spec, loop invariant), Accept when none; Drop/Reject => no delivery, no forward; Reject => one ProblemRejected notice echoing the four address fields unless the packet is a notice; every effect site (forward, reserved dispatch, local delivery, notices) is guarded by the decision. Not decided yet: rule closures and ParseFirewallRule(s) (regexp semantics are a library matter)."),
+ "C06": ("proof", "handleRoutingUpdate, all inputs and all interleavings of its critical sections: an update naming the local node as origin is never stored or relayed (own epoch: ignored; newer epoch: one own update carrying the suspicion; suspected == own epoch: shutdown); the UpdateID test-and-insert is one critical section (the store requires the id to be absent at the acquisition that is still held); the (epoch, sequence) stored for an origin and the relay both require the update to be strictly newer than what was known at the lock acquisition; the relay goes to flood(msg, receiving connection) with ForwardingNode rewritten. Known finding D15 (suspected-duplicate notices are relayed without the freshness test) is reported, anything else on that obligation is a violation. Not decided: flooding termination across nodes (counting lemma), expiry of seenUpdates, the monotonicity guarantee as a two-state invariant."),
+ "C14": ("proof", "Save, Load, UpdateFullStatus: typestate obligations over ghost flags - every open/stat/seek/read/truncate/write of the status file happens after lockStatusFile(filename) succeeded and before the matching unlockStatusFile(filename, thatLock), which runs on every path; in UpdateFullStatus the record handed to the callback was loaded after the lock was taken whenever the file is non-empty, the callback precedes truncate precedes the single write-back of the same object. Not decided: lockedfile/flock mutual exclusion itself (assumed), callers of these primitives."),
+ "C15": ("proof", "processSignature returns nil exactly when (the type does not verify and no token was sent) or (it verifies and (the connection is the unix socket or VerifySignature accepted the token)); in ControlFunc every call of AllocateUnit, AllocateRemoteUnit, Cancel, Release and GetResults is dominated by that decision for the unit's own work type, and the unix flag can only be true when RemoteAddr().Network() == \"unix\"; VerifySignature rejects empty tokens / missing key, parses exactly the given token and requires the audience claim. Not decided: golang-jwt semantics (assumed, named sigok), key loading."),
+ "C18": ("proof", "handleServiceAdvertisement: an entry is stored, or deleted by a cancel, or relayed only when no entry was known at the lock acquisition or the message is strictly newer than the known one; what is stored is the received advertisement under its own service name; the relay passes the received bytes and excludes the sender. Not decided: withdrawn-service history (no tombstones: D13, not expressible without a history ghost), convergence."),
+ "C19": ("proof", "remoteUnit.Status: in the returned record no key k with HasPrefix(ToLower(k), \"secret_\") remains (loop invariants with the visited-set ghost), non-secret entries are untouched, and nothing that existed before the call is modified (frame: only the fresh copy made by UnredactedStatus, whose contract is trusted); AllocateRemoteUnit reaches AllocateUnit only with a TLS client profile or a parameter map without secret keys. Not decided: unitStatusForCFR (reflection), error strings and logs."),
  "C16": ("proof", "handleMessageData: a 'service unknown' notice is sent only for an accepted, local, non-reserved packet from a remote sender when no live listener is registered (state at the listenerLock acquisition), echoing the packet's four address fields, addressed to md.FromNode; a local sender gets the synchronous error. Not decided yet: the per-socket filter, monitorUnreachable, the broker."),
 }
 
